@@ -107,6 +107,15 @@ def gen(rng, tier):
         below = [b for b in paths_for(d2) if b[:len(loc)] == loc and len(b) > len(loc) + 1]
         if below:
             yield {"mode": True, "ops": [["add", "/k9", 1], ["move", rfc6901_spell(loc + [i]), rfc6901_spell(rng.choice(below))]], "doc": doc}
+    # `test` compares JSON values: a string is not the array of its characters, nor the reverse, at any depth
+    tdocs = [{"x": ["a", "b"], "y": "ab", "e": [], "s": "", "n": [["a"], "a"], "o": {"k": ["x", "y"], "m": "xy"}, "one": ["a"], "c": "a"}]
+    for doc in tdocs:
+        pairs = [("/x", "ab"), ("/y", ["a", "b"]), ("/e", ""), ("/s", []), ("/one", "a"), ("/c", ["a"]), ("/n", ["a", "a"]), ("/n", [["a"], ["a"]]),
+                 ("/o", {"k": "xy", "m": "xy"}), ("/o", {"k": ["x", "y"], "m": ["x", "y"]}), ("/n/0", "a"), ("/x", ["a", "b"]), ("/y", "ab"),
+                 ("", dict(doc, x="ab")), ("/x/0", ["a"])]
+        for path, v in pairs:
+            yield {"mode": True, "ops": [["test", path, v]], "doc": doc}
+            yield {"mode": True, "ops": [["test", path, v], ["remove", "/c"]], "doc": doc}
     # a container is added and later operations of the same patch work inside it
     for _ in range(1500 if thorough else 150):
         doc = gen_container(rng, 2, 3, ["a", "b", "0", "1"])
